@@ -20,12 +20,12 @@ NONTRIVIAL_RULE = ">= 1 population of pairwise distinct genomes with floor(n*t) 
 EXPECTED_PROBES = ["c15-populations-compared", "c15-metamorphic-permutation", "c15-metamorphic-translation",
                    "c15-metamorphic-scaling", "c15-metamorphic-mirror", "c15-near-duplicate-genomes",
                    "c15-tied-fitness", "c15-tie-with-best", "c15-several-clusters", "c15-skipped-duplicate-genomes",
-                   "c15-no-verdict-band"]
+                   "c15-no-verdict-band", "c15-population-with-clones"]
 ASSUMPTIONS = ["comparisons whose outcome depends on a distance within relative 1e-9 of the cut threshold get no verdict",
                "populations with duplicate genomes are outside the statement's precondition: skipped and counted"]
 
 PROFILE = P.profile(dims=[1, 2, 2, 3, 4, 5, 6, 8], levels_w={1: 0, 2: 7, 3: 3}, pop=[4, 40], metaepochs=[4, 16],
-                    root_engines={"ea": 4, "de": 4, "shade": 3, "lhs": 1, "sobol": 1, "custom": 0.5},
+                    root_engines={"ea": 4, "de": 4, "shade": 3, "lhs": 1, "sobol": 1, "custom": 1.2},
                     mid_engines={"ea": 4, "de": 3, "shade": 2, "cma": 1},
                     leaf_engines={"cma": 3, "local": 2, "ea": 1},
                     sprout_w={"nbc_factory": 5, "simple_factory": 0, "composed": 5},
@@ -54,6 +54,10 @@ def gen(seed, tier):
                     l["engine"] = "local"
                     l.pop("sigma0", None)
                     l.pop("set_stds", None)
+        if pl["levels"][0]["engine"] == "custom" and seed % 3 != 0:
+            # a user-written (mu + lambda) engine built on Individual.clone(): parents next to their clones
+            pl["levels"][0]["custom_fine"] = True
+            pl["entry"] = "tree"
         sp = pl["sprout"]
         if "generator" in sp and sp["generator"]["kind"] == "best":
             sp["generator"] = {"kind": "nbc", "distance_factor": r.choice([0.5, 1.0, 1.5, 2.0, 3.0]),
@@ -167,6 +171,8 @@ class C15Monitor(Monitor):
         strs = {str(i.genome) for i in pop}
         if len(strs) < n:
             w.probe("c15-near-duplicate-genomes")
+        if len({getattr(i, "uuid", id(i)) for i in pop}) < n:
+            w.probe("c15-population-with-clones")
         got = {next(k for k, x in enumerate(pop) if x is ind) for ind in c.individuals}
         cls = type(d).__name__
         if got != ref["seeds"]:
